@@ -6,6 +6,7 @@ from ..util import func
 from . import numpy_wrapper as anp
 from .numpy_boxes import ArrayBox
 from .numpy_vjps import (
+    argument_order,
     balanced_eq,
     dot_adjoint_0,
     dot_adjoint_1,
@@ -87,14 +88,14 @@ defjvp(anp.rad2deg, "same")
 defjvp(anp.degrees, "same")
 defjvp(anp.deg2rad, "same")
 defjvp(anp.radians, "same")
-defjvp(anp.reshape, "same")
+defjvp(anp.reshape, lambda g, ans, x, shape, order=None: anp.reshape(g, shape, order=argument_order(x, order)))
 defjvp(anp.roll, "same")
 defjvp(anp.array_split, "same")
 defjvp(anp.split, "same")
 defjvp(anp.vsplit, "same")
 defjvp(anp.hsplit, "same")
 defjvp(anp.dsplit, "same")
-defjvp(anp.ravel, "same")
+defjvp(anp.ravel, lambda g, ans, x, order=None: anp.ravel(g, order=argument_order(x, order)))
 defjvp(anp.expand_dims, "same")
 defjvp(anp.squeeze, "same")
 defjvp(anp.diag, "same")
